@@ -60,6 +60,13 @@ P = {
          "C18_commit (payload = 01 idx switch param ++ bitmap, 46 bytes) - closed; implementation: exhaustive 48x48x4 edits, invalid inputs, and "
          "real SchedulesResponse -> EcoMAX -> Schedule edits -> commit() frames compared with the model.",
          "datetime.strptime parsing of HH:MM is CPython's; weekday mapping is checked by correspondence through the real device."),
+ "C13": ("Theorems over every operation sequence of the event-manager model (subscribe, subscribe_once, unsubscribe, dispatch tasks, resumption "
+         "of suspended callbacks, get with timeout, clock advance; induction with invariants, closed): C13_once (a subscribe_once callback is awaited "
+         "at most once), C13_snapshot + C13_spawn_snapshot (every awaited callback belongs to the snapshot its dispatch took when it started, which "
+         "is the subscription list of that moment), C13_unsubscribe, C13_getter (a getter only returns values stored by some dispatch). The monitor "
+         "P13 of the whole property (order, value threading, store, wake, getters, timeouts) is evaluated on the implementation's log of every history.",
+         "partial: the ordering / value-threading clause is checked by the monitor on every explored history of model and implementation but not proved "
+         "for all histories; CPython's ready-queue order within one loop iteration is fixed by letting the loop settle after each operation."),
  "C14": ("Theorems C14_noise (documented outcomes, progress, bounded wait <= 1000 bytes after the delimiter, tiling, iteration ends with the "
          "broken-stream signal) and C14_resync_clean (closed); the full resynchronisation clause is refuted in Coq (C14_resync_refuted) and "
          "recorded as known finding D16; implementation checked for P14 and for the resync bound on every generated run.",
